@@ -62,7 +62,7 @@ HAND = [
     'p(X, Y) :- q(X, Y), X = Y..3.',
     'p(X) :- X = a..b.',
     'p(X) :- q(X), X < a, X + 1 > 3.',
-    'p(X) :- q(X), X != #inf, -X = 3.',
+    'p(X) :- q(X), X != #inf, -X = 3.', 'p(X) :- q(X), X != 1..3.', 'p(X) :- q(X), 1..3 != X.', 'p(X) :- q(X), X <= 1..3.', 'p(X) :- q(X), X > 1..3.',
     'p(-a). p(-(1..2)). p(-X) :- q(X).',
     'p(a + 1). p(#inf - 1). p(1 * #sup).',
     'p(X..Y, Z) :- q(X, Y, Z), Z = X + Y.',
